@@ -24,7 +24,7 @@ def replay_add_many(ctx, cases, rng, count):
     for case in cases:
         if done >= count:
             break
-        if case['dir'] != 'rtl' or len(case['ent']) < 3 or any(o['tie'] for o in case['outcomes']):
+        if case['dir'] != 'rtl' or len(case['ent']) < 3 or any(o['tie'] for o in case['outcomes']) or RD.tiered(case):
             continue
         d, N, T = case['d'], case['N'], case['T']
         n = [case['npre']] * (d - 1) + [len(case['ent'])]
@@ -60,6 +60,9 @@ def _worker(task):
         use_stab = bool(rng.integers(2))
         sp = int(rng.choice([0, 0, -20, 20, 40]))
         pad = rng.random() < 0.15
+        if RD.tiered(case):
+            # thresholds at relative size ~1e-9: below the sqrt(eps) floor of the eigen-decomposition mode -> SVD mode only
+            is_eigh, pad = False, False
         order_ = [None, 'F', 'C'][int(rng.integers(3))]
         try:
             msg = RD.replay_truncate(None, case, rng, is_eigh, use_stab, scale_pow=sp, pad=pad, order=order_)
@@ -81,9 +84,9 @@ def run(ctx):
     ctx.assumptions = ['exact decisions on the distinct-last-index family and its symmetry orbit',
                        'ties straddling a cut are checked by the inequalities only',
                        'rounding floor: thresholds are >= 1/2 in units where entries are >= 1']
-    cfgs = ['Rounding_c02_q.cfg'] if ctx.tier == 'quick' else ['Rounding_c02_q.cfg', 'Rounding_c02_t1.cfg', 'Rounding_c02_t2.cfg', 'Rounding_c02_t3.cfg']
+    cfgs = ['Rounding_c02_q.cfg', 'Rounding_c02_tier.cfg'] if ctx.tier == 'quick' else ['Rounding_c02_q.cfg', 'Rounding_c02_tier.cfg', 'Rounding_c02_t1.cfg', 'Rounding_c02_t2.cfg', 'Rounding_c02_t3.cfg']
     rng = np.random.default_rng(ctx.seed)
-    budget = 7000 if ctx.tier == 'quick' else 400000
+    budget = 10000 if ctx.tier == 'quick' else 400000
     for cfg in cfgs:
         cases = RD.emit(ctx, cfg, 'Rounding rtl: ' + cfg, workers=16)
         order = rng.permutation(len(cases))
